@@ -454,7 +454,7 @@ func writeEvidence(vd string, spec *CheckSpec, tier string, seed int, wall, load
 		"repo_head":            repoHead(),
 		"known_findings":       known,
 		"inconclusive":         problems,
-		"explanation":          "bounded symbolic execution of the real code (go/ssa of /repo's working tree) with SMT-decided branches and assertions; every verdict inside the stated bounds is a solver verdict; nothing is claimed outside them",
+		"explanation":          explanationFor(solver.Queries, solver.CacheHits),
 	}
 	ev := map[string]interface{}{
 		"property_id": spec.Property, "tier": tier, "seed": seed, "level": "model_checking",
@@ -523,4 +523,12 @@ func cmdReplay(args []string) int {
 		}
 	}
 	return 0
+}
+
+func explanationFor(queries, cacheHits int) string {
+	base := "bounded symbolic execution of the real code (go/ssa of /repo's working tree): every branch, assertion and scheduling point inside the stated bounds is explored; nothing is claimed outside them. "
+	if queries+cacheHits == 0 {
+		return base + "In this run every branch condition was concrete along every explored execution (inputs are structural choices and schedules, all of which are enumerated by the engine's decision tree); no SMT query was needed, so the verdict rests on exhaustive exploration of that tree, not on a solver."
+	}
+	return base + "Conditions over symbolic inputs were decided by the SMT solvers (counts under coverage.solver); structural choices and schedules are enumerated by the engine's decision tree."
 }
